@@ -18,6 +18,7 @@ import (
 )
 
 type sub struct {
+	many   []manyCase // the many-siblings family (shapes and lists unused)
 	name   string
 	shapes [][]int  // parent vectors (pre-order forests under body)
 	lists  [][]kind // menu of kinds per box
@@ -173,6 +174,9 @@ func (c *check) build(tier string) {
 		add("3 boxes, 16 core kinds", shapes(3, 2), rep(kindsOf(core16...), 3))
 		add("4 boxes, 8 kinds, one level of nesting", shapes(4, 1), rep(kindsOf(small8...), 4))
 	}
+	// many-siblings family (both tiers): ties among ≥ 13 child contexts of one sign in one context
+	ms := manyCases()
+	c.subs = append(c.subs, &sub{name: "many siblings: n ∈ {13,14,16,20,33} positioned siblings of one stacking context × z-index patterns with ties × {absolute, relative} × {children of the root context, children of a positioned z-index:0 box}", many: ms, size: int64(len(ms))})
 	c.units = 0
 	for _, s := range c.subs {
 		s.start = c.units
@@ -200,11 +204,19 @@ func (c *check) Init(tier string, seed int64) engine.Space {
 			}
 			menus = append(menus, names)
 		}
+		if s.many != nil {
+			var pats []string
+			for _, p := range manyPatterns {
+				pats = append(pats, p.name)
+			}
+			bs = append(bs, map[string]any{"name": s.name, "sibling_counts": manyN, "z_patterns": pats, "cases": s.size})
+			continue
+		}
 		bs = append(bs, map[string]any{"name": s.name, "shapes": sh, "kinds_per_box": menus, "cases": s.size})
 	}
 	return engine.Space{
 		Units: c.units, Chunk: 48, Level: "model_checking", CaseCPUs: 8,
-		Rule: "deviation-bounded product: every arrangement (pre-order forest of 2–4 boxes under body) × every assignment of a kind (set of ≤ 2 deviations from the menu) to every box, kinds listed simplest first; arrangements with an in-flow block-level child of a display:inline box are outside the alphabet and skipped (counted); a case is non-trivial when the Appendix E order differs from document order; transitions = edges of the deviation lattice (deviations present in the case)",
+		Rule: "(family many-siblings: every listed sibling count × z-index pattern × positioning × nesting; expected order = stable sort by z-index, tree order among ties) + deviation-bounded product: every arrangement (pre-order forest of 2–4 boxes under body) × every assignment of a kind (set of ≤ 2 deviations from the menu) to every box, kinds listed simplest first; arrangements with an in-flow block-level child of a display:inline box are outside the alphabet and skipped (counted); a case is non-trivial when the Appendix E order differs from document order; transitions = edges of the deviation lattice (deviations present in the case)",
 		Bounds: map[string]any{
 			"deviation_menu": devName[:], "deviation_css": devCSS[:], "sub_spaces": bs, "max_deviations_per_box": 2,
 		},
@@ -224,12 +236,103 @@ type acase struct {
 	sub     *sub
 	parents []int
 	kinds   []kind
+	// many-siblings family only
+	many  *manyCase
+	zs    []*int   // declared z-index per box (nil = none)
+	extra []string // extra declarations per box
+}
+
+// ---- many-siblings family -----------------------------------------------------------------------
+
+type manyPattern struct {
+	name string
+	z    func(i, n int) int
+}
+
+var manyN = []int{13, 14, 16, 20, 33}
+
+var manyPatterns = []manyPattern{
+	{"all equal 1", func(i, n int) int { return 1 }},
+	{"all equal -1", func(i, n int) int { return -1 }},
+	{"cyclic 1,2,3", func(i, n int) int { return i%3 + 1 }},
+	{"cyclic -1,-2,-3", func(i, n int) int { return -(i%3 + 1) }},
+	{"alternating 2,1", func(i, n int) int { return 2 - i%2 }},
+	{"alternating -1,-2", func(i, n int) int { return -1 - i%2 }},
+	{"descending with repeats", func(i, n int) int { return (n-1-i)/3 + 1 }},
+	{"descending with repeats, negative", func(i, n int) int { return -(i/3 + 1) }},
+	{"ascending with repeats", func(i, n int) int { return i/2 + 1 }},
+	{"one low value last among equals", func(i, n int) int {
+		if i == n-1 {
+			return 1
+		}
+		return 2
+	}},
+	{"one high value first among equals", func(i, n int) int {
+		if i == 0 {
+			return 3
+		}
+		return 2
+	}},
+	{"squares mod 4, positive", func(i, n int) int { return (i*i)%4 + 1 }},
+	{"squares mod 5, negative", func(i, n int) int { return -((i*i)%5 + 1) }},
+	{"mixed sign -1,1,1,2", func(i, n int) int { return []int{-1, 1, 1, 2}[i%4] }},
+	{"mixed sign 2,-1,-1,-2,1,-1", func(i, n int) int { return []int{2, -1, -1, -2, 1, -1}[i%6] }},
+	{"mixed sign with 0: 1,0,-1,1,-1,-1,1", func(i, n int) int { return []int{1, 0, -1, 1, -1, -1, 1}[i%7] }},
+}
+
+type manyCase struct {
+	n, pat int
+	abs    bool // position:absolute;top:0;left:0, else position:relative shifted back onto the first sibling
+	nested bool // siblings are children of a position:relative;z-index:0 box
+}
+
+func manyCases() []manyCase {
+	var out []manyCase
+	for _, nested := range []bool{false, true} {
+		for _, abs := range []bool{true, false} {
+			for _, n := range manyN {
+				for p := range manyPatterns {
+					out = append(out, manyCase{n: n, pat: p, abs: abs, nested: nested})
+				}
+			}
+		}
+	}
+	return out
+}
+
+func (mc *manyCase) acase(s *sub) acase {
+	cs := acase{sub: s, many: mc}
+	first := 0
+	if mc.nested {
+		z := 0
+		cs.parents = append(cs.parents, -1)
+		cs.kinds = append(cs.kinds, kind{dRel})
+		cs.zs = append(cs.zs, &z)
+		cs.extra = append(cs.extra, "z-index:0")
+		first = 1
+	}
+	for i := 0; i < mc.n; i++ {
+		z := manyPatterns[mc.pat].z(i, mc.n)
+		cs.parents = append(cs.parents, first-1)
+		cs.zs = append(cs.zs, &z)
+		if mc.abs {
+			cs.kinds = append(cs.kinds, kind{dAbs})
+			cs.extra = append(cs.extra, fmt.Sprintf("top:0;left:0;z-index:%d", z))
+		} else {
+			cs.kinds = append(cs.kinds, kind{dRel})
+			cs.extra = append(cs.extra, fmt.Sprintf("top:%dpx;z-index:%d", -10*i, z))
+		}
+	}
+	return cs
 }
 
 func (c *check) decode(u int64) acase {
 	for _, s := range c.subs {
 		if u < s.start+s.size {
 			i := u - s.start
+			if s.many != nil {
+				return s.many[i].acase(s)
+			}
 			cs := acase{sub: s}
 			cs.parents = s.shapes[i%int64(len(s.shapes))]
 			i /= int64(len(s.shapes))
@@ -247,6 +350,17 @@ func (c *check) decode(u int64) acase {
 }
 
 func (cs acase) desc() string {
+	if mc := cs.many; mc != nil {
+		pos := "relative"
+		if mc.abs {
+			pos = "absolute"
+		}
+		var zl []string
+		for _, z := range cs.zs {
+			zl = append(zl, fmt.Sprint(*z))
+		}
+		return fmt.Sprintf("many-siblings n=%d position=%s nested=%v pattern=%q z=[%s]", mc.n, pos, mc.nested, manyPatterns[mc.pat].name, strings.Join(zl, ","))
+	}
 	var ks []string
 	for _, k := range cs.kinds {
 		ks = append(ks, k.String())
@@ -254,7 +368,7 @@ func (cs acase) desc() string {
 	return "shape=" + shapeString(cs.parents) + " kinds=" + strings.Join(ks, "/")
 }
 
-const prelude = `<style>@page{size:300px 300px;margin:0} html,body{margin:0;font-family:ahem;font-size:10px;line-height:1;white-space:nowrap}</style><body>`
+const prelude = `<style>@page{size:400px 400px;margin:0} html,body{margin:0;font-family:ahem;font-size:10px;line-height:1;white-space:nowrap}</style><body>`
 
 func boxCSS(id int, k kind) string {
 	parts := []string{fmt.Sprintf("background:#%02x0000", id)}
@@ -272,7 +386,11 @@ func (cs acase) body() string {
 	var sb strings.Builder
 	var w func(i int)
 	w = func(i int) {
-		fmt.Fprintf(&sb, `<div style="%s">%c`, boxCSS(i+1, cs.kinds[i]), 'a'+i)
+		css := boxCSS(i+1, cs.kinds[i])
+		if cs.extra != nil {
+			css += ";" + cs.extra[i]
+		}
+		fmt.Fprintf(&sb, `<div style="%s">%c`, css, glyphs[i])
 		for j := range cs.parents {
 			if cs.parents[j] == i {
 				w(j)
@@ -294,6 +412,10 @@ func (cs acase) features(m *model) []string {
 	set := map[string]bool{}
 	family := [nDev]string{"positioned", "positioned", "float", "inline-level", "inline-level", "cell", "z-index", "z-index", "z-index", "z-index", "z-index",
 		"opacity", "transform", "overflow", "outline"}
+	if cs.many != nil {
+		set["many-siblings"] = true
+		set["has:z-index"] = true
+	}
 	for i, k := range cs.kinds {
 		b := m.boxes[i]
 		for _, d := range k {
@@ -367,7 +489,7 @@ func (c *check) Run(u int64, ctx *engine.Ctx) {
 		}
 	}
 	cs := c.decode(u)
-	m := newModel(cs.parents, cs.kinds)
+	m := newModelZ(cs.parents, cs.kinds, cs.zs)
 	if why := m.outside(); why != "" {
 		ctx.Count("skipped:"+why, 1)
 		return
@@ -382,8 +504,11 @@ func (c *check) Run(u int64, ctx *engine.Ctx) {
 		return
 	}
 	ndev := 0
-	for _, k := range cs.kinds {
+	for i, k := range cs.kinds {
 		ndev += len(k)
+		if cs.zs != nil && cs.zs[i] != nil {
+			ndev++
+		}
 	}
 	ctx.Trans(int64(ndev))
 	fail := func(clause, detail string) {
@@ -394,7 +519,7 @@ func (c *check) Run(u int64, ctx *engine.Ctx) {
 		fail("one-page", fmt.Sprintf("the document must render onto exactly one page (err=%v)", err))
 		return
 	}
-	o := observe(rec.Flat(res.Rec.Pages[0].Events))
+	o := observe(rec.Flat(res.Rec.Pages[0].Events), len(m.boxes))
 	got := o.collapsed()
 	want := m.expected()
 	ctx.Case(!sameSeq(want, documentOrder(m)), evString(got))
@@ -448,7 +573,7 @@ func (c *check) Run(u int64, ctx *engine.Ctx) {
 		}
 		for i := 1; i < len(seq); i++ {
 			if pos[seq[i-1]] > pos[seq[i]] {
-				fail("box-order", fmt.Sprintf("box %c: %s must precede %s\ngot %s", 'A'+b.id-1, seq[i-1], seq[i], evString(got)))
+				fail("box-order", fmt.Sprintf("box %s: %s must precede %s\ngot %s", boxName(b.id), seq[i-1], seq[i], evString(got)))
 				break
 			}
 		}
@@ -486,7 +611,7 @@ func (c *check) Run(u int64, ctx *engine.Ctx) {
 			in := func(e ev) bool { return f.contains(m.boxes[e.box-1]) && !inFree(e, f) }
 			g, w := filter(gotNoOl, in), filter(want, in)
 			if !sameSeq(g, w) {
-				fail("order", fmt.Sprintf("inside the overflow unit %c: want %s\ngot  %s\n(full: want %s got %s)", 'A'+f.id-1, evString(w), evString(g), evString(want), evString(gotNoOl)))
+				fail("order", fmt.Sprintf("inside the overflow unit %s: want %s\ngot  %s\n(full: want %s got %s)", boxName(f.id), evString(w), evString(g), evString(want), evString(gotNoOl)))
 			}
 			// contiguity of the unit
 			first, last, n := -1, -1, 0
@@ -500,7 +625,7 @@ func (c *check) Run(u int64, ctx *engine.Ctx) {
 				}
 			}
 			if last-first+1 != n {
-				fail("atomic-overflow", fmt.Sprintf("the sub-tree of the overflow box %c is not painted as a unit\ngot %s", 'A'+f.id-1, evString(gotNoOl)))
+				fail("atomic-overflow", fmt.Sprintf("the sub-tree of the overflow box %s is not painted as a unit\ngot %s", boxName(f.id), evString(gotNoOl)))
 			}
 		}
 	}
@@ -528,7 +653,7 @@ func (c *check) Run(u int64, ctx *engine.Ctx) {
 			}
 			return true
 		}
-		name := string(rune('A' + b.id - 1))
+		name := boxName(b.id)
 		if b.opacity {
 			ctx.Count("clause:atomic-opacity", 1)
 			found := false
@@ -621,7 +746,10 @@ func (c *check) Describe(u int64) any {
 	for _, k := range cs.kinds {
 		ks = append(ks, k.String())
 	}
-	m := newModel(cs.parents, cs.kinds)
+	m := newModelZ(cs.parents, cs.kinds, cs.zs)
+	if cs.many != nil {
+		return map[string]any{"sub_space": cs.sub.name, "case": cs.desc(), "html": cs.body(), "reference_order": evString(m.expected())}
+	}
 	return map[string]any{"sub_space": cs.sub.name, "shape": shapeString(cs.parents), "kinds": ks, "html": cs.body(),
 		"outside_alphabet": m.outside(), "reference_order": evString(m.expected())}
 }
